@@ -157,3 +157,13 @@ void h_pow_sign(void) {   /* Annex F: for a negative finite base, pow is negativ
   WITNESS("large_odd_exponent", odd && e == 10);
   HARNESS_END();
 }
+/* sincos is documented to return the same results as sin and cos: decided as an equivalence of the two code paths for every argument */
+void h_sincos(void) {
+  IN(u16, a); u16 out[2] = {0, 0};
+  w_sincos(a, out);
+  u16 s = w_sin(a), c = w_cos(a);
+  VASSERT((ISNANH(out[0]) && ISNANH(s)) || out[0] == s, "sincos: the sine output equals sin(x) bit for bit");
+  VASSERT((ISNANH(out[1]) && ISNANH(c)) || out[1] == c, "sincos: the cosine output equals cos(x) bit for bit");
+  WITNESS("small_argument", (a & 0x7fff) > 0x2500 && (a & 0x7fff) < 0x2900);
+  HARNESS_END();
+}
